@@ -78,6 +78,7 @@ def posting(nposters=2, posts=(1, 1), capacity=3, handler_post=False, pending=0,
   import miros.activeobject as ao
   import miros.hsm as hsm
   sc = Scenario("posting")
+  prototypes(sc)
   sig = signals_ns(sc)
   EV = RecordClass("event", ["signal", "signal_name"])
   USER = 11
@@ -188,6 +189,14 @@ def posting(nposters=2, posts=(1, 1), capacity=3, handler_post=False, pending=0,
   sc.info = {"events": [e.rid for e in events], "posters": list(range(nposters)), "consumer": tid, "D": D, "Q": Q, "kinds": kinds,
              "handler_post_event": hp.rid if hp else None, "capacity": capacity, "posts": list(posts)}
   return sc
+
+
+def prototypes(sc):
+  """real instances in which the translator looks up an attribute that the scenario does not bind (see Compiler.auto_bind)"""
+  import miros.activeobject as ao
+  sc.proto_factories[ao.LockingDeque] = lambda: ao.LockingDeque()
+  sc.proto_factories[ao.ActiveFabricSource] = lambda: ao.ActiveFabricSource()
+  sc.proto_factories[ao.ActiveObject] = lambda: ao.ActiveObject(name="prototype")
 
 
 def bind_instance(sc, obj, name, special=None):
@@ -417,6 +426,7 @@ def stopping(action="stop", handler_stop=False, pending=0, sources=1, times=2, d
   handler_stop: stop() is called from the handler of the first pending event instead (thread 0 then only posts nothing)."""
   import miros.activeobject as ao
   sc = Scenario("stopping")
+  prototypes(sc)
   sig = signals_ns(sc)
   EV = RecordClass("event", ["signal", "signal_name"])
   A = sc.strings.code("A")
@@ -604,6 +614,7 @@ def fabric_start(scripts=(("start",), ("start",)), pool=4, prestarted=False):
   Threads created by start() come from a pool of `pool` modelled threads whose body is the delivery loop waiting on its queue."""
   import miros.activeobject as ao
   sc = Scenario("fabric_start")
+  prototypes(sc)
   signals_ns(sc)
   run_event = sc.add(M.MEvent("fabric_event", 0))
   qf = sc.add(M.MQueue("fifo_queue", 4))
@@ -696,6 +707,7 @@ def rejecting(deferred=True, times=1, kind="fifo", capacity=2, pending=0, existi
   spot from its target (the real post_event_thread_runner closure) and can run from the moment start() was called on it."""
   import miros.activeobject as ao
   sc = Scenario("rejecting")
+  prototypes(sc)
   sig = signals_ns(sc)
   EV = RecordClass("event", ["signal", "signal_name"])
   ev_new = EV.new(signal=SK(11, 11), signal_name=SK(sc.strings.code("W_REJECTED"), "W_REJECTED"))
@@ -854,6 +866,7 @@ def fabric_delivery(script="late-subscriber", kinds=("fifo",)):
   thread_runner_fifo / thread_runner_lifo.  Subscriber queues are plain deques."""
   import miros.activeobject as ao
   sc = Scenario("fabric_delivery")
+  prototypes(sc)
   signals_ns(sc)
   steps = FABRIC_SCRIPTS[script]
   EV = RecordClass("event", ["signal", "signal_name"])
@@ -918,6 +931,7 @@ def ao_pubsub(kind="lifo", pending=1, subscribe_first=True, post_after=0):
   thread runs run_event.  The object's queue is a LockingDeque (token queue + deque with a ghost reference for the intended order)."""
   import miros.activeobject as ao
   sc = Scenario("ao_pubsub")
+  prototypes(sc)
   sig = signals_ns(sc)
   EV = RecordClass("event", ["signal", "signal_name"])
   FE = RecordClass("FabricEvent", ["event", "priority"])
@@ -1055,6 +1069,7 @@ def publishers(counts=(2, 2)):
   events got, whether it has returned, and which calls of the other threads had returned when it began."""
   import miros.activeobject as ao
   sc = Scenario("publishers")
+  prototypes(sc)
   signals_ns(sc)
   EV = RecordClass("event", ["signal", "signal_name"])
   sc.record_pyclass["event"] = ao.HsmEvent
